@@ -85,21 +85,23 @@ type Strategy struct {
 	MaxW          int    `json:"max_w,omitempty"`           // weighted: weights drawn in 1..MaxW per key
 	Starve        string `json:"starve,omitempty"`          // substring: matching candidates run only when nothing else can
 	StallBudgetMs int    `json:"stall_budget_ms,omitempty"` // total simulated time that drawn stalls may consume (default 20 s)
+	StarveExact   string `json:"starve_exact,omitempty"`    // candidate with exactly this name runs only when nothing else can
 }
 
 // Outcome of Sched.Run.
 type Outcome int
 
 const (
-	Finished Outcome = iota
-	Deadline         // simulated deadline passed
-	Idle             // no progress for the idle cut
-	Diverged         // replay vector did not fit the execution
-	Aborted          // OnQuiesce returned an error
+	Finished  Outcome = iota
+	Deadline          // simulated deadline passed
+	Idle              // no progress for the idle cut
+	Diverged          // replay vector did not fit the execution
+	Aborted           // OnQuiesce returned an error
+	StepLimit         // more scheduling steps than any legitimate run of this harness takes (livelock)
 )
 
 func (o Outcome) String() string {
-	return [...]string{"finished", "deadline", "idle", "diverged", "aborted"}[o]
+	return [...]string{"finished", "deadline", "idle", "diverged", "aborted", "step-limit"}[o]
 }
 
 type Sched struct {
@@ -123,6 +125,7 @@ type Sched struct {
 	weight   map[string]int
 
 	Steps     int
+	MaxSteps  int
 	Ticks     int
 	Stalls    int
 	StallTime time.Duration
@@ -179,7 +182,7 @@ func New(seed uint64, strat Strategy) *Sched {
 		wake: make(chan struct{}, 1), stopCh: make(chan struct{}), active: true,
 		Pick: NewSplitMix(seed ^ 0xA5A5A5A5), Data: NewSplitMix(seed ^ 0x5A5A5A5A5A), Strat: strat, seed: seed,
 		prio: map[string]uint64{}, changeAt: map[int]int{}, weight: map[string]int{},
-		KeepLog: 600, dead: map[string]bool{}, exits: map[string]int{}, crashCnt: map[string]int{},
+		KeepLog: 600, MaxSteps: 5000000, dead: map[string]bool{}, exits: map[string]int{}, crashCnt: map[string]int{},
 		CrashSeen: map[string]int{}, IdleQuantum: 100 * time.Millisecond,
 		SiteHits: map[string]int{}, QStates: map[uint64]struct{}{}, lastSite: map[string]string{},
 	}
@@ -448,10 +451,10 @@ func (s *Sched) choose(cs []cand) int {
 	if len(cs) == 1 {
 		return 0
 	}
-	if st := s.Strat.Starve; st != "" {
+	if st, ex := s.Strat.Starve, s.Strat.StarveExact; st != "" || ex != "" {
 		var keep []int
 		for i := range cs {
-			if !strings.Contains(cs[i].key, st) {
+			if (st == "" || !strings.Contains(cs[i].key, st)) && (ex == "" || cs[i].key != ex) {
 				keep = append(keep, i)
 			}
 		}
@@ -460,10 +463,10 @@ func (s *Sched) choose(cs []cand) int {
 			for i, k := range keep {
 				sub[i] = cs[k]
 			}
-			saved := s.Strat.Starve
-			s.Strat.Starve = ""
+			saved, savedEx := s.Strat.Starve, s.Strat.StarveExact
+			s.Strat.Starve, s.Strat.StarveExact = "", ""
 			j := s.choose(sub)
-			s.Strat.Starve = saved
+			s.Strat.Starve, s.Strat.StarveExact = saved, savedEx
 			return keep[j]
 		}
 	}
@@ -535,6 +538,9 @@ func (s *Sched) Run(stop func() bool, deadline time.Time, idleCut time.Duration)
 		now := time.Now()
 		if now.After(deadline) {
 			return Deadline
+		}
+		if s.MaxSteps > 0 && s.Steps > s.MaxSteps {
+			return StepLimit
 		}
 		s.mu.Lock()
 		if idleCut > 0 && now.Sub(s.lastProgress) > idleCut {
